@@ -91,6 +91,37 @@ def encode_requests(rng, n_packets, allow_over):
     return cases
 
 
+def boundary_cases(rng, thorough):
+    """sweep a filler field so that the property-section length and the remaining length of every packet kind cross the
+    1/2-byte (and, sampled, the 2/3-byte) variable-length-integer boundaries, under every alias resolution"""
+    def filler(n):
+        return "x" + "61" * n
+    small = list(range(108, 132))
+    big = list(range(16366, 16388)) if thorough else sorted(rng.sample(range(16366, 16388), 4))
+    cases = []
+
+    def add(pkt, v, res=""):
+        cases.append({"pkt": pkt, "v": v, "res": res, "caps": [G.gen_caps(rng), "4096", "7"]})
+
+    for n in small + big:
+        for res in ("", " skip=0 alias=7", " skip=1 alias=65535"):
+            add(f"publish pid=0 topic=x612f62 qos=0 dup=0 retain=0 payload=x7061 ct={filler(n)}", 5, res)
+        q = rng.choice([1, 2])
+        add(f"publish pid=9 topic=x612f62 qos={q} dup=0 retain=0 mei=5 up={filler(n)}:x62", 5, rng.choice(["", " skip=0 alias=1", " skip=1 alias=1"]))
+        # remaining-length boundaries, both versions
+        add(f"publish pid=0 topic=x612f62 qos=0 dup=0 retain=0 payload={filler(n)}", 311)
+        add(f"publish pid=0 topic=x612f62 qos=0 dup=0 retain=0 payload={filler(n)}", 5, rng.choice(["", " skip=1 alias=2"]))
+        add(f"connect ka=60 clean=1 cid=x63 up={filler(n)}:x", 5)
+        add(f"connect ka=60 clean=1 cid=x63 w.pid=0 w.topic=x77 w.qos=0 w.dup=0 w.retain=0 w.ct={filler(n)}", 5)
+        add(f"connect ka=60 clean=1 cid={filler(n)}", 311)
+        add(f"subscribe pid=1 sub=x612f62:1:0:0:0 up={filler(n)}:x", 5)
+        add(f"subscribe pid=1 sub={filler(n)}:1:0:0:0", rng.choice([5, 311]))
+        add(f"unsubscribe pid=1 tf=x612f62 up={filler(n)}:x", 5)
+        add(f"disconnect rc=0 rs={filler(n)}", 5)
+        add(f"{rng.choice(['puback', 'pubrec', 'pubrel', 'pubcomp'])} pid=3 rc=0 rs={filler(n)}", 5)
+    return cases
+
+
 def over_limit(pkt):
     """does any string/binary field exceed 65535 bytes (outside the static validity domain)?"""
     _, kv = parse_kv(pkt)
@@ -106,7 +137,8 @@ def suite_encode(report, tier, seed, prop="C02"):
     implementation's bytes: chunk bounds, chunking invariance, reference decoding = supplied content."""
     rng = Rng(seed, "encode")
     n = 700 if tier == "quick" else 20000
-    cases = encode_requests(rng, n, allow_over=True)
+    cases = boundary_cases(rng, tier != "quick") + encode_requests(rng, n, allow_over=True)
+    report.count("encode.boundary-sweep", len(cases) - n)
     reqs = []
     for c in cases:
         for caps in c["caps"]:
@@ -263,9 +295,31 @@ def suite_decode(report, tier, seed, prop="C03"):
             if mx > 0 and s[3] and len(s[3]) == 1:
                 streams.append((s[0], mx, s[2], s[3] if mx >= len(s[2]) else None, "limit"))
                 report.count("decode.limit-probe")
+    # the same around packets whose length prefix takes 2, 3 and 4 bytes, the limit 0..4 bytes short: every way of
+    # splitting the fixed header across reads must give the same rejection
+    big = [s for s in valid_pool if len(s[2]) >= 130 and s[3] and len(s[3]) == 1][:12]
+    for plen in ([150, 20000] if tier == "quick" else [150, 20000, 2100000]):
+        for v in (5, 311):
+            body = bytes([0, 1, 0x74]) + (b"\x00" if v == 5 else b"") + b"p" * plen
+            rl, n = bytearray(), len(body)
+            while True:
+                d, n = n % 128, n // 128
+                rl.append(d | (0x80 if n else 0))
+                if not n:
+                    break
+            big.append((v, 0, bytes([0x30]) + bytes(rl) + body, None, "publish"))
+    limit_chunkings = {}
+    for s in big:
+        for short in (0, 1, 2, 3, 4):
+            mx = len(s[2]) - short
+            streams.append((s[0], mx, s[2], None, "limit" if short else "limit-fits"))
+            hdr = 1 + (1 if len(s[2]) < 130 else 2 if len(s[2]) < 16386 else 3 if len(s[2]) < 2097156 else 4)
+            limit_chunkings[len(streams) - 1] = [[s[2]]] + [[s[2][:c], s[2][c:]] for c in range(1, hdr + 1)] + \
+                [[s[2][i:i + 1] for i in range(hdr)] + [s[2][hdr:]]]
+            report.count("decode.limit-header-split")
     reqs, owner = [], []
     for si, (v, mx, data, exp, label) in enumerate(streams):
-        for parts in G.chunkings(rng, data, nchunk):
+        for parts in limit_chunkings.get(si) or G.chunkings(rng, data, nchunk):
             reqs.append(f"decode v={v} max={mx} chunks={','.join(hexs(p) for p in parts)}")
             owner.append(si)
     impl = harness_batch(reqs)
@@ -304,9 +358,20 @@ def suite_decode(report, tier, seed, prop="C03"):
                                                                          "detail": faithful_detail(label, segs, exp)},
                                            "a well-formed server packet is not decoded to its content",
                                            [lst[0][0], "# spec packet: " + label[:300], "# impl:     " + outs[0][:300], "# expected: " + " | ".join(exp)[:300]]))
+        elif label == "limit-fits":
+            f, segs = resp_fields(outs[0])
+            if f.get("res") != "ok" or len(segs) != 1:
+                robust_ok = False
+                report.add_finding(Finding(prop, "mon:decode-size-limit", {"clause": "fitting-rejected"},
+                                           "a packet exactly as large as the maximum packet size was not delivered", [lst[0][0], "# impl: " + outs[0][:200]]))
         elif label == "limit":
             f, _ = resp_fields(outs[0])
-            if not f.get("res", "").startswith("err"):
+            bad = [(r, o) for r, o in lst if not resp_fields(o)[0].get("res", "").startswith("err")]
+            if bad:
+                robust_ok = False
+                report.add_finding(Finding(prop, "mon:decode-size-limit", {"clause": "oversize-accepted"},
+                                           "a packet larger than the maximum packet size was accepted", [bad[0][0], "# impl: " + bad[0][1][:200]]))
+            elif not f.get("res", "").startswith("err"):
                 robust_ok = False
                 report.add_finding(Finding(prop, "mon:decode-size-limit", {"clause": "oversize-accepted"},
                                            "a packet larger than the maximum packet size was accepted", [lst[0][0], "# impl: " + outs[0][:200]]))
